@@ -56,7 +56,7 @@ def main(chk):
       return {'status': type(e).__name__, 'exc': str(e)[:160], 'obs': [], 'ret': None, 'acc': None}
 
   def spec_obs(obs):
-    return [o for o in obs if o['k'] in ('val', 'key', 'bool', 'map')]
+    return [o for o in obs if o['k'] in ('val', 'key', 'bool', 'map', 'nested')]
 
   def cmp_spec(sobs, robs, kinds, keymap):
     out = []
@@ -78,6 +78,9 @@ def main(chk):
       elif s['k'] == 'bool':
         if bool(r) != s['v']:
           out.append(('C05', f'observation {i}: sow returned {bool(r)}, specification {s["v"]}'))
+      elif s['k'] == 'nested':
+        if int(r) != s['n']:
+          out.append(('C05', f'observation {i}: nested apply returned {int(r)} intermediates, specification {s["n"]}'))
       elif s['k'] == 'map':
         if bool(r) != s['did']:
           out.append(('C05', f'observation {i}: mapping write executed={bool(r)}, specification {s["did"]}'))
